@@ -44,48 +44,8 @@ def run(res):
                           {"template_dump": c[:4000], "impl": i, "model": m}, no_input=True)
     found_a = found
     found = 0
-    p = harness_run(["scopeval", res.tier, res.seed])
-    jobs_in = [json.loads(l) for l in p.stdout.decode("utf8").split("\n") if l]
-    jobs = []
-    for j in jobs_in:
-        jobs.append({"op": "run", "id": "g", "bundle": j["bundle"], "path": "p", "slotValues": j.get("slotValues"), "steps": [{"create": d} for d in j["datas"]]})
-        for d in j["datas"]:
-            jobs.append({"op": "eval", "id": "r", "expr": j["ref"], "data": d})
-    out = node_jobs(jobs, shards=12)
-    k = 0
-    n_eval = 0
-    nontrivial = 0
-    depth_hist = {}
-    for j in jobs_in:
-        g = out[k]
-        refs = out[k + 1:k + 1 + len(j["datas"])]
-        k += 1 + len(j["datas"])
-        depth_hist[j["depth"]] = depth_hist.get(j["depth"], 0) + 1
-        if j["max_level"] >= 3:
-            found += 1
-            res.violation("well-formed scope template rejected by the parser", {"src": j["src"]})
-            continue
-        for di, (d, rf) in enumerate(zip(j["datas"], refs)):
-            n_eval += 1
-            if rf.get("skip") or rf.get("error"):
-                continue
-            if g.get("error"):
-                if "list too long" in g["error"]:
-                    continue
-                found += 1
-                if found <= 6:
-                    res.violation("generated code throws: %s" % g["error"][:200], {"src": j["src"], "data": d})
-                break
-            got = texts_of(g["trees"][di], [])
-            want = dec_list(rf["value"])
-            if len(want) > 2:
-                nontrivial += 1
-            if got != want:
-                found += 1
-                if found <= 6:
-                    res.violation("names resolve differently from lexical scoping: template %s renders %s, lexical reference gives %s" % (
-                        j["src"][:300], json.dumps(got)[:200], json.dumps(want)[:200]),
-                        {"src": j["src"], "data": d, "reference_js": j["ref"], "rendered": got, "expected": want})
+    import scopeval
+    found, n_eval, nontrivial, depth_hist, jobs_in = scopeval.check(res)
     if not ok:
         res.violation(what, {"obligation": "Properties/C05.v"}, no_input=(found == 0))
     if found > 0:
